@@ -85,34 +85,49 @@ def check_table(ctx, case):
              + (["c14:wraps"] if wraps else []) + (["c14:long-columns-%d" % min(long_cols, 3)] if wraps else []))
     snapshot = copy.deepcopy([header, rows])
 
-    def render():
-        io = BufferedIO("", AnsiFormatter(forced=True) if case.get("ansi") else PlainFormatter())
-        io.set_terminal_dimensions(Rectangle(width, 20))
+    def build():
         t = Table(make_style(case["style"]))
         if header:
             t.set_header_row(header)
         t.add_rows(rows)
-        t.render(io, indent)
+        return t
+
+    def render(t=None, w=width):
+        io = BufferedIO("", AnsiFormatter(forced=True) if case.get("ansi") else PlainFormatter())
+        io.set_terminal_dimensions(Rectangle(w, 20))
+        (t or build()).render(io, indent)
         return io.fetch_output()
+
+    table = build()
 
     def fail(clause, expected, observed, sig=None, exc=None):
         ctx.fail("table", clause, case, expected, observed, sig=sig, exc=exc)
 
     try:
-        out = render()
+        out = render(table)
     except Exception as e:
         fail("C14.renders", "render returns", {"available": available, "natural": natural}, exc=e)
         return
     if [header, rows] != snapshot:
         fail("C14.unmodified", snapshot, [header, rows])
         return
+    # rendering does not modify the table: the SAME table object renders the same page again, also after it was
+    # rendered at another width in between, and a table built afresh from the same rows renders that page too
+    other = width + 9
     try:
-        again = render()
+        again = render(table)
+        wide = render(table, other)
+        back = render(table)
+        fresh, fresh_wide = render(), render(None, other)
     except Exception as e:
-        fail("C14.twice", "second render returns", None, exc=e)
+        fail("C14.twice", "later renders return", None, exc=e)
         return
     if again != out:
-        fail("C14.twice", out, again)
+        fail("C14.twice", out, again, sig="same-object")
+    if back != out or wide != fresh_wide:
+        fail("C14.twice", [out, fresh_wide], [back, wide], sig="after-other-width")
+    if fresh != out:
+        fail("C14.twice", out, fresh, sig="fresh-table")
     text = markup.strip_sgr(out)
     if not case.get("ansi") and "\x1b" in out:
         fail("C14.renders", "no escape byte on a plain output", out, sig="escape")
